@@ -50,14 +50,17 @@ CLAIMS = {
         "its projection of the sequential execution (closed_sorted_family_unique by peeling); the order of the theory is proved to be the runtime's event order of C16. "
         "Tie to the C runtime: differential — generated programs (ties, zero delay, payload 0..100, library RNG, rs_malloc/realloc/free scripts over several arenas) x "
         "(threads 1..16 incl. > LPs, checkpoint interval, GVT period) — every returning run's per-LP hash-chain digest equals the extracted reference executor. "
-        "The refinement process_msg -> abstract steps itself is not mechanised (partial, named in the evidence).",
-   note=TB + "SC atomics at model level; refinement of the C code to the abstract machine by differential runs only.",
+        "At quiescence the abstract histories are proved equal to the log of the executable reference executor (C01_quiescent_histories_are_the_reference_log). "
+        "process.c/fossil.c/the queue are additionally tied op by op to an executable worker model (TW/Worker.v) whose state and history-structure invariants are proved for every script; "
+        "the simulation proof worker model -> abstract machine is not mechanised (partial, named in the evidence).",
+   note=TB + "SC atomics at model level; the step from the worker model to the abstract machine rests on the abstract theorem plus differential runs.",
    tech="Coq proof (invariants over all schedules of an abstract Time Warp machine + uniqueness of closed sorted histories) + differential runs against the extracted sequential executor"),
  "C03": dict(cat="proof", ref="DESIGN.md §5 C03",
    text="Theorems (Properties_C03.v, axiom-free): in every reachable state of the abstract machine and for every GVT value valid there, the part of an LP's history "
         "below it is a prefix of the history and equals the LP's sequential dispatch sequence below it; commit bounds are monotone (what was released stays a prefix). "
         "Tie: the fossil-collection hook emits every released entry before it is freed, the shutdown hook the remaining history; per LP the committed sequence "
-        "(time, type, size, payload digest) is compared with the extracted reference executor run to exhaustion, for runs ended by predicate, termination time and RootsimStop.",
+        "(time, type, size, payload digest) is compared with the extracted reference executor run to exhaustion, for runs ended by predicate, termination time and RootsimStop; "
+        "LP-level scripts (messages held in flight while LPs run ahead, GVT rounds that do not advance, programs with silent handlers, checkpoint interval 1) with the op-by-op worker-model correspondence.",
    note=TB + "as C01; committed = released by fossil collection, or held at shutdown below the last GVT delivered to the owning thread.",
    tech="Coq proof (corollary of the C01 capstone + timestamp-sorted prefix lemma) + trace comparison of committed sequences with the extracted executor"),
  "C07": dict(cat="proof", ref="DESIGN.md §5 C07",
@@ -72,20 +75,22 @@ CLAIMS = {
    text="PARTIAL. Theorems (Properties_C08.v, axiom-free): the c_a/c_b GVT phase protocol has no deadlock in any reachable state while all threads keep stepping, a pass is bounded by 4n steps; "
         "barrier exits are enabled once all entered. REFUTED for the composition in the code: F12 (witness state reachable in the model; only the absent thread can move) — recorded known finding, "
         "reproduced by the runs. Decision on the real runtime: every generated run (predicate / termination time / RootsimStop from a handler; 1..16 threads; GVT periods down to 0) must return "
-        "within the watchdog with one LP_FINI per LP; a non-returning run is classified by hook stage markers and reported unless it matches a known finding.",
+        "within the watchdog with one LP_FINI per LP, including 2- and 3-rank runs with preemptions injected at the shutdown barrier and in the main loop (found and fixed F16); a non-returning run is "
+        "classified by the hook stage markers of the workers of all ranks and reported unless it matches a known finding.",
    note=TB + "liveness of the whole shutdown path is not proved; OS starvation and MPI progress cannot be exhibited by the model.",
    tech="Coq proof of deadlock-freedom/bounded passes on protocol models + refutation witness + watchdog-classified runs"),
  "C09": dict(cat="proof", ref="DESIGN.md §5 C09",
    text="Theorems (Properties_C09.v, axiom-free): the seeded generator state is well formed for every (lp, seed) and stays so under draws (so by C18 every draw of every run is defined); "
         "the committed outcome theorem of C01 mentions no configuration. Tie: random_lib_lp_init compared bit-exactly with the model for sampled (lp, seed); metamorphic matrix "
-        "(threads x checkpoint interval x GVT period x repetition) on programs drawing RandomU64/Random/RandomRange: all final digests equal each other and the reference.",
+        "(threads x checkpoint interval x GVT period x repetition) on programs drawing RandomU64/Random/RandomRange: all final digests equal each other and the reference; programs drawing "
+        "Expent/Normal/Gamma/Zipf/RandomRangeNonUniform (libm: no Gallina twin) under the same matrix plus a 2-rank run: all final digests equal the serial runtime's.",
    note=TB + "configuration independence inherits C01's level.",
    tech="Coq proof (seeding well-formedness; C01 corollary) + bit-exact seeding correspondence + metamorphic runs"),
  "C10": dict(cat="proof", ref="DESIGN.md §5 C10",
-   text="Theorems (Properties_C10.v, axiom-free): the reference executor dispatches at every step an event minimal in the runtime order among all pending ones, removes exactly it, adds exactly "
+   text="Theorems (Properties_C10.v, axiom-free): the reference executor run to exhaustion is a sequential execution in the sense of the abstract theory (C10_reference_run_is_a_sequential_execution); it dispatches at every step an event minimal in the runtime order among all pending ones, removes exactly it, adds exactly "
         "its outputs, changes only the destination LP, keeps the pending list sorted for the whole run; the heap algorithms of heap.h keep the heap property and a minimal root for any strict weak order "
         "and size. Tie: serial.c dispatch logs vs the extracted executor per LP (ties, zero delay, events at init incl. time 0, payloads, termination time, LP true at init), order and "
-        "LP_INIT/LP_FINI counts checked on the implementation.",
+        "LP_INIT/LP_FINI counts checked on the implementation; a quarter of the programs contain zero-delay relays whose content ties with the event in flight.",
    note=TB + "serial.c itself is tied by differential runs (no mechanised refinement of serial.c).",
    tech="Coq proof (sortedness/minimality invariants of the executor, heap invariants) + differential dispatch-log correspondence"),
  "C17": dict(cat="proof", ref="DESIGN.md §5 C17",
@@ -113,13 +118,17 @@ CLAIMS = {
    note=TB + "arena insertion position (malloc address order) is an input of the model; content observed per 64-byte granule; multi-arena layer and size arithmetic tied by correspondence, not proved.",
    tech="Coq proof (structural induction on the buddy tree; free = inverse of malloc) + differential correspondence of the real allocator with the extracted model + shadow-allocator oracle"),
  "C05": dict(cat="proof", ref="DESIGN.md §5 C05",
-   text="Theorems (Properties_C05.v, axiom-free): restoring an arena from a checkpoint yields the checkpointed tree (same live blocks; later allocations gone) and the checkpointed content of "
+   text="Theorems (Properties_C05.v, axiom-free): on the executable worker model (process_msg, rollback = anti-messages + checkpoint selection + silent re-execution, periodic checkpoints, "
+        "fossil collection with re-basing, the queue), for EVERY script of deliveries, late hand-backs, cancellations and GVT announcements, every program and checkpoint interval: each LP's memory "
+        "is exactly the replay of the processed messages of its retained history from its oldest checkpoint, each checkpoint the replay up to its reference, the markers before a processed message "
+        "are exactly the handler's outputs on the replayed state, checkpoint references and rollback targets are group boundaries. Arena level: restoring an arena from a checkpoint yields the checkpointed tree (same live blocks; later allocations gone) and the checkpointed content of "
         "every granule of every block allocated at the checkpoint, whatever happened to the arena since; a restore to index ref uses the newest checkpoint not after ref, returns its reference, "
         "drops every later checkpoint. Tie: allocator driver with checkpoints at arbitrary indices and restores at/between/just after checkpoints incl. arenas created after the checkpoint; "
         "LP level: multi-thread runs (intervals 1..7/auto) and the LP-level driver (the harness plays the network: holds messages, returns them late — thousands of rollbacks to indices between "
         "checkpoints, silent re-executions) must end with the reference hash-chain digests (state, live buffers, RNG stream).",
-   note=TB + "silent re-execution / send suppression / RNG-in-LP-memory are tied by runs, not proved at LP level.",
-   tech="Coq proof (checkpoint/restore exactness on the arena model, log selection) + differential correspondence + LP-level rollback storms against the reference executor"),
+   note=TB + "the worker model abstracts an LP's memory to the interpreter state (a checkpoint = a copy): that real checkpoints are exact copies is the arena theorem + allocator correspondence; "
+        "the worker model is tied to process.c/fossil.c by digests after every script line (fixed checkpoint intervals); remote markers (2 ranks) are covered by runs only.",
+   tech="Coq proof (invariant of an executable model of process.c over all scripts; checkpoint/restore exactness on the arena model) + op-by-op correspondence of process.c/fossil.c with the extracted worker model + differential allocator correspondence + rollback storms against the reference executor"),
  "C13": dict(cat="proof", ref="DESIGN.md §5 C13",
    text="Theorems (Properties_C13.v, axiom-free): fossil collection keeps the newest checkpoint not after the target and every later one, re-bases their references so the kept log starts at 0, "
         "changes neither arenas nor size bookkeeping, and afterwards a restore to any index finds a checkpoint. Tie: allocator driver calling the real model_allocator_fossil_lp_collect/_checkpoint_restore "
@@ -139,7 +148,8 @@ CLAIMS = {
    text="Theorems (Properties_C02.v, axiom-free): the capstone of C01 is rank-free — the abstract machine's pool holds every existing message wherever it is (buffer, queue, MPI flight) and "
         "its steps may be scheduled in any order, so delivery delay, inter-sender reordering and anti-messages overtaking their message are schedules of it; remote (id word, sequence word) keys "
         "are injective, so an anti-message matches only its own message. Tie: real multi-process runs (mpiexec, 2..3 ranks x 1..16 threads, GVT periods down to 0) of generated programs: "
-        "per-LP final digests against the extracted reference executor, one finalisation per LP.",
+        "per-LP final digests against the extracted reference executor, one finalisation per LP; busy programs additionally under a simulated network (MPI profiling shim: uneven finite delivery "
+        "delays, FIFO per sender thread and destination) so that events and anti-messages stay in flight across GVT rounds.",
    note=TB + "MPI modelled, not verified (exactly-once delivery, collectives, progress); node-level GVT reduction not modelled separately; layouts with a rank without LPs excluded (finding F15).",
    tech="Coq proof (rank-free abstract Time Warp machine + injectivity of remote ids) + multi-rank differential runs against the extracted sequential executor"),
  "C04": dict(cat="proof", ref="DESIGN.md §5 C04",
